@@ -30,7 +30,7 @@ ASSUMPTIONS = [
     'objects returned by accessors are not mutated by the harness',
 ]
 ANCHORS = ['Table.copy', 'Table.filter', 'Table.transform', 'Table.subsample', 'Table._get_sparse_data']
-REQUIRED = ['axes_with_partly_empty_metadata', 'refused_inplace_twins_checked',
+REQUIRED = ['receivers_with_group_metadata', 'axes_with_partly_empty_metadata', 'refused_inplace_twins_checked',
             'update_ids_collision_requests', 'degenerate_argument_calls', 'noninplace_calls', 'inplace_equivalence_checked',
             'isolation_batteries', 'fault_injections', 'layout_csc_seen',
             'layout_unsorted_seen', 'args_tables_checked',
@@ -76,6 +76,12 @@ def battery(ctx, res, r):
     res.pa(inplace=True)
     changed = True
     for axis in ('sample', 'observation'):
+        # group metadata: whatever the result carries is replaced, and an
+        # entry of its own added
+        gm = res.group_metadata(axis=axis)
+        upd_g = {k: ('str', 'rewritten') for k in (gm or {})}
+        upd_g['added to the result'] = ('str', 'x')
+        res.add_group_metadata(upd_g, axis=axis)
         ids = list(res.ids(axis=axis))
         md = res.metadata(axis=axis)
         keys = sorted({k for e in (md or ()) for k in e}, key=str)
@@ -363,6 +369,24 @@ def run_case(ctx, index):
     desc = {'table': spec.describe(), 'recipe': recipe, 'layout': st,
             'op': op, 'axis': axis, 'args': args}
     ctx.count('op_' + op)
+    if r.random() < .2:
+        # a receiver that carries group metadata (a tree, a grouping) on one
+        # axis or both
+        for ax_ in r.sample(['sample', 'observation'], r.randint(1, 2)):
+            t.add_group_metadata({'tree': ('newick', '(a,b)%s;' % ax_),
+                                  'note': ('str', 'kept')}, axis=ax_)
+        ctx.count('receivers_with_group_metadata')
+        desc['group_metadata'] = True
+
+    def grp(x):
+        return copy.deepcopy((x.group_metadata(axis='observation'),
+                              x.group_metadata(axis='sample')))
+    grp_before = grp(t)
+
+    def grp_unchanged(sig):
+        if grp(t) != grp_before:
+            raise Violation(sig, 'the receiver\'s group metadata are %r, '
+                            'were %r; case=%r' % (grp(t), grp_before, desc))
     before = snap.snap(t)
     tb = [snap.snap(x) for x in tables]
     twin = copy.deepcopy(t)
@@ -395,6 +419,7 @@ def run_case(ctx, index):
                 raise Violation('C07/returned-an-input', '%s returned one of '
                                 'its inputs; case=%r' % (op, desc))
     oracles.unchanged(t, before, 'C07/receiver-modified/' + op, desc)
+    grp_unchanged('C07/receiver-modified/' + op)
     for a, sb in zip(tables, tb):
         oracles.unchanged(a, sb, 'C07/argument-modified/' + op, desc,
                           'argument table')
@@ -424,6 +449,7 @@ def run_case(ctx, index):
         if battery(ctx, x, r):
             ctx.count('isolation_batteries')
     oracles.unchanged(t, before, 'C07/result-aliases-receiver/' + op, desc)
+    grp_unchanged('C07/result-aliases-receiver/' + op)
     for a, sb in zip(tables, tb):
         oracles.unchanged(a, sb, 'C07/result-aliases-argument/' + op, desc,
                           'argument table')
